@@ -173,7 +173,7 @@ def run(ctx):
                     return False, "%s: %s" % (source, vals), {"source": source, "values": vals,
                                                                "state": {k: n[k]["state"] for k in sorted(n)}}
             return True, "ATN and code: %s" % describe(get("ATN")["named"])
-        g.check(name, goal, fn, witness_families=["expr_binding"])
+        g.check(name, goal, fn)
 
     relation("add<mul", "p_add < p_mul: TIMES/DIVIDE bind tighter than binary PLUS/MINUS",
              lambda n: n["add"]["p"] < n["mul"]["p"], lambda n: {"p_add": n["add"]["p"], "p_mul": n["mul"]["p"]})
@@ -209,8 +209,8 @@ def run(ctx):
                         {"entry": k, "atn": va, "code": vc, "line": c[k].get("line") if k in c else None})
         return True, "%d entries" % len(a)
     g.check("code==atn", "the precedence predicate constants and recursive-call precedences in blackbirdParser.expression equal those of "
-            "the ATN, entry by entry, at the same state numbers", agree, witness_families=["expr_binding"])
+            "the ATN, entry by entry, at the same state numbers", agree)
     return g.obligations
 
 
-ASSUMPTIONS = ["A-antlr-prec: precedence climbing with the extracted table yields the stated binding"]
+ASSUMPTIONS = ["A-antlr-prec"]
